@@ -819,12 +819,15 @@ esl_histogram_SetExpectedTail(ESL_HISTOGRAM *h, double base_val, double pmass,
   int b;
   double ai, bi;
 
-  if (h->expect == NULL)  ESL_ALLOC(h->expect, sizeof(double) * h->nb);
-
   /* <base_val> may lie outside the bins we have allocated (0..nb-1);
    * <emin> must stay in 0..nb, where nb means no bin is in the tail.
+   * Refuse a <base_val> that has no bin before allocating <expect>:
+   * a non-NULL <expect> means "expected counts are set" to the
+   * output routines, and they would read it uninitialised.
    */
   if ((status = esl_histogram_Score2Bin(h, base_val, &b)) != eslOK) return status;
+
+  if (h->expect == NULL)  ESL_ALLOC(h->expect, sizeof(double) * h->nb);
   if      (b <  0)     h->emin = 0;
   else if (b >= h->nb) h->emin = h->nb;
   else                 h->emin = b+1;
